@@ -289,6 +289,9 @@ def run(ctx):
     from . import common as _cm19
     _cm19.import_clauses(ctx, res, 'C08', ['C08.e'], 'C19', 'C19.k', 'R-AGREE',
                          'worker answers are correlated with the recording they were asked for (fresh channels per worker)', floor=1)
+    # ---- C19.l selection: the lookup hands the cassette the caller's filter; S3 prefixes end at the category; the worker serves every task
+    _cm19.import_clauses(ctx, res, 'C10', ['C10.a', 'C10.b'], 'C19', 'C19.l', 'R-SIBLING', 'lookup filter and listing prefixes select exactly the category\'s recordings', floor=4)
+    _cm19.import_clauses(ctx, res, 'C08', ['C08.c'], 'C19', 'C19.m', 'R-CONTAIN', 'the worker keeps serving: a selected recording is replayed, not failed for a worker that left', floor=3)
     return res
 
 
